@@ -128,3 +128,44 @@ package commitgraph
 //gvc:  loop 1 invariant pos: it1 >= 0
 //gvc:  sink Close requires live: recv != nil
 //gvc:end
+
+// ChunkType.Signature: the four bytes of the chunk's id in chunkSignatures
+// (granted: the table is a package variable holding a literal; the engine
+// does not read it).
+//gvc:func ChunkType.Signature
+//gvc:  props C51
+//gvc:  theory int
+//gvc:  opt coarse
+//gvc:  opt frame args
+//gvc:  grants ids: len(result) == 4 && (ct == 0 ==> bytes_eq(result, "OIDF")) && (ct == 1 ==> bytes_eq(result, "OIDL")) && (ct == 2 ==> bytes_eq(result, "CDAT")) && (ct == 3 ==> bytes_eq(result, "GDA2")) && (ct == 4 ==> bytes_eq(result, "GDO2")) && (ct == 5 ==> bytes_eq(result, "EDGE"))
+//gvc:end
+
+// Index.HasGenerationV2 is a constant of the index (trusted interface contract).
+//gvc:ghost Index.v2 bool
+//gvc:func Index.HasGenerationV2
+//gvc:  trusted
+//gvc:  params idx
+//gvc:  ensures const: result == idx.#v2
+//gvc:end
+
+// Encode (C51: what go-git writes passes git commit-graph verify): the chunk
+// table lists the chunks in the order their data is written -- OIDF, OIDL,
+// CDAT, then EDGE when there are octopus edges, then GDA2 and GDO2 for
+// generation v2 -- because a chunk's offset in the table is the sum of the
+// sizes listed before it.
+//gvc:func (*Encoder).Encode
+//gvc:  props C51
+//gvc:  theory int
+//gvc:  opt coarse
+//gvc:  opt frame args
+//gvc:  requires nn: idx != nil
+//gvc:  sink encodeChunkHeaders requires fixed: len(arg0) >= 3 && len(arg1) == len(arg0) && bytes_eq(arg0[0], "OIDF") && bytes_eq(arg0[1], "OIDL") && bytes_eq(arg0[2], "CDAT")
+//gvc:  sink encodeChunkHeaders requires count: len(arg0) == 3 + ite(extraEdgesCount > 0, 1, 0) + ite(idx.#v2, 1 + ite(generationV2OverflowCount > 0, 1, 0), 0)
+//gvc:  sink encodeChunkHeaders requires edges: extraEdgesCount > 0 ==> bytes_eq(arg0[3], "EDGE") && arg1[3] == extraEdgesCount * 4
+//gvc:  sink encodeChunkHeaders requires gen: idx.#v2 ==> bytes_eq(arg0[3 + ite(extraEdgesCount > 0, 1, 0)], "GDA2") && arg1[3 + ite(extraEdgesCount > 0, 1, 0)] == len(hashes) * 4
+//gvc:  sink encodeChunkHeaders requires ovf: idx.#v2 && generationV2OverflowCount > 0 ==> bytes_eq(arg0[4 + ite(extraEdgesCount > 0, 1, 0)], "GDO2") && arg1[4 + ite(extraEdgesCount > 0, 1, 0)] == generationV2OverflowCount * 8
+//gvc:  sink encodeChunkHeaders requires fanout: arg1[0] == 1024
+//gvc:  sink encodeExtraEdges requires order: calls("encodeCommitData") == 1 && calls("encodeGenerationV2Data") == 0
+//gvc:  sink encodeGenerationV2Data requires order: calls("encodeExtraEdges") == 1 && calls("encodeGenerationV2Overflow") == 0
+//gvc:  sink encodeGenerationV2Overflow requires order: calls("encodeGenerationV2Data") == 1
+//gvc:end
